@@ -27,7 +27,99 @@ fn tok(k: &str, l: &Range<Position>, text: &str) -> J {
     json!({"k": k, "loc": loc(l), "text": text, "children": []})
 }
 
+thread_local! {
+    /// iterator monitor (mode `ast` with "iters": true): the public child iterators must yield each direct
+    /// child exactly once, in field order, and the `_mut` variants the same places (written through).
+    static ITERS_ON: std::cell::Cell<bool> = std::cell::Cell::new(false);
+    static ITERS_ELEM_MUT: std::cell::Cell<bool> = std::cell::Cell::new(true);
+    static ESTACK: std::cell::RefCell<Vec<Vec<usize>>> = std::cell::RefCell::new(vec![]);
+    static ITER_VIOL: std::cell::RefCell<Vec<String>> = std::cell::RefCell::new(vec![]);
+    static ITER_COUNTS: std::cell::Cell<(u64, u64, u64)> = std::cell::Cell::new((0, 0, 0));
+}
+
+fn iter_viol(s: String) {
+    ITER_VIOL.with(|v| {
+        let mut v = v.borrow_mut();
+        if v.len() < 8 {
+            v.push(s)
+        }
+    });
+}
+
 fn expr(e: &Expression) -> J {
+    if !ITERS_ON.with(|x| x.get()) {
+        return expr_inner(e);
+    }
+    ESTACK.with(|s| s.borrow_mut().push(vec![]));
+    let j = expr_inner(e);
+    let mine = ESTACK.with(|s| s.borrow_mut().pop().unwrap_or_default());
+    let via: Vec<usize> = e.sub_expressions().map(|x| x as *const Expression as usize).collect();
+    if mine != via {
+        iter_viol(format!("sub_expressions() of {:?} yields {} item(s), the fields hold {}", std::mem::discriminant(e), via.len(), mine.len()));
+    }
+    let mut c = e.clone();
+    let shared: Vec<usize> = c.sub_expressions().map(|x| x as *const Expression as usize).collect();
+    let mut muts: Vec<usize> = vec![];
+    for sub in c.sub_expressions_mut() {
+        muts.push(sub as *mut Expression as usize);
+        let t = sub.clone();
+        *sub = t;
+    }
+    if shared != muts {
+        iter_viol(format!("sub_expressions_mut() of {:?} differs from sub_expressions(): {} vs {}", std::mem::discriminant(e), muts.len(), shared.len()));
+    }
+    ITER_COUNTS.with(|k| {
+        let (a, b, c2) = k.get();
+        k.set((a + 1, b + via.len() as u64, c2))
+    });
+    ESTACK.with(|s| {
+        if let Some(p) = s.borrow_mut().last_mut() {
+            p.push(e as *const Expression as usize)
+        }
+    });
+    j
+}
+
+fn check_element_iters(e: &Element) {
+    let direct: Vec<usize> = match &e.kind {
+        ElementKind::Normal { children, .. } | ElementKind::Pure { children, .. } | ElementKind::For { children, .. } => children.iter().map(|x| x as *const Node as usize).collect(),
+        ElementKind::If { branches, else_branch, .. } => branches.iter().flat_map(|b| b.2.iter()).chain(else_branch.iter().flat_map(|b| b.1.iter())).map(|x| x as *const Node as usize).collect(),
+        _ => vec![],
+    };
+    let it = e.iter_children();
+    let hint = it.size_hint();
+    let via: Vec<usize> = it.map(|x| x as *const Node as usize).collect();
+    if direct != via {
+        iter_viol(format!("iter_children() yields {} node(s), the fields hold {}", via.len(), direct.len()));
+    }
+    if hint.0 > via.len() || hint.1.map(|h| h < via.len()).unwrap_or(false) {
+        iter_viol(format!("iter_children().size_hint() = {:?} but {} node(s) are yielded", hint, via.len()));
+    }
+    if !ITERS_ELEM_MUT.with(|x| x.get()) {
+        ITER_COUNTS.with(|k| {
+            let (a, b, c2) = k.get();
+            k.set((a, b, c2 + 1))
+        });
+        return;
+    }
+    let mut c = e.clone();
+    let shared: Vec<usize> = c.iter_children().map(|x| x as *const Node as usize).collect();
+    let mut muts: Vec<usize> = vec![];
+    for n in c.iter_children_mut() {
+        muts.push(n as *mut Node as usize);
+        let t = n.clone();
+        *n = t;
+    }
+    if shared != muts {
+        iter_viol(format!("iter_children_mut() differs from iter_children(): {} vs {}", muts.len(), shared.len()));
+    }
+    ITER_COUNTS.with(|k| {
+        let (a, b, c2) = k.get();
+        k.set((a, b, c2 + 1))
+    });
+}
+
+fn expr_inner(e: &Expression) -> J {
     let l = e.location();
     macro_rules! bin {
         ($op:expr, $left:expr, $right:expr, $loc:expr) => {
@@ -68,6 +160,13 @@ fn expr(e: &Expression) -> J {
                         if let Some(c) = colon_location {
                             ch.push(tok("op", c, ":"));
                             ch.push(expr(value));
+                        } else if ITERS_ON.with(|x| x.get()) {
+                            // shorthand `{a}`: the value has no source text of its own, but it is a sub-expression
+                            ESTACK.with(|s| {
+                                if let Some(p) = s.borrow_mut().last_mut() {
+                                    p.push(value as *const Expression as usize)
+                                }
+                            });
                         }
                     }
                     ObjectFieldKind::Spread { location, value } => {
@@ -266,6 +365,9 @@ fn node(n: &Node) -> J {
 }
 
 fn element(e: &Element) -> J {
+    if ITERS_ON.with(|x| x.get()) {
+        check_element_iters(e);
+    }
     let l = e.location();
     let tl = tag_location(&e.tag_location);
     let mut attrs: Vec<J> = vec![];
@@ -367,6 +469,12 @@ pub fn run_case(case: &J) -> J {
     let id = case.get("id").cloned().unwrap_or(J::Null);
     let src = case.get("src").and_then(|x| x.as_str()).unwrap_or("");
     let path = case.get("path").and_then(|x| x.as_str()).unwrap_or("p");
+    let iters = case.get("iters").and_then(|x| x.as_bool()).unwrap_or(false);
+    ITERS_ON.with(|x| x.set(iters));
+    ITERS_ELEM_MUT.with(|x| x.set(case.get("iters_elem_mut").and_then(|x| x.as_bool()).unwrap_or(true)));
+    ESTACK.with(|s| s.borrow_mut().clear());
+    ITER_VIOL.with(|s| s.borrow_mut().clear());
+    ITER_COUNTS.with(|k| k.set((0, 0, 0)));
     match guarded("parse", || {
         let (t, ps) = glass_easel_template_compiler::parse::parse(path, src);
         let diags: Vec<J> = ps.warnings().map(diag_json).collect();
@@ -398,6 +506,15 @@ pub fn run_case(case: &J) -> J {
     }) {
         Ok(mut r) => {
             r["id"] = id;
+            if iters {
+                let (ne, ns, nel) = ITER_COUNTS.with(|k| k.get());
+                r["iters"] = json!({"violations": ITER_VIOL.with(|v| v.borrow().clone()), "expressions": ne, "sub_expressions": ns, "elements": nel});
+                if case.get("tree").and_then(|x| x.as_bool()) == Some(false) {
+                    for k in ["imports", "includes", "scripts", "sub_templates", "content"] {
+                        r.as_object_mut().map(|o| o.remove(k));
+                    }
+                }
+            }
             r["panics"] = json!([]);
             r
         }
